@@ -410,6 +410,8 @@ def gen_logs(rng, n, tids=None, with_tai=False):
 def gen_writer(rng, version, threads, nrec_hint=0, logs=True, with_tai=False):
     w = {'version': version, 'tmap': gen_tmap(rng, threads)}
     if version == 2:
+        w['is64'] = rng.pick([1, 1, 0, 0xffffffff])
+        w['freq'] = rng.pick([24000000, 0, 1, 1000000000, (1 << 64) - 1])
         w['pad'] = rng.pick([0, 0, 1, 7, 8, 63, 64, 128, rng.randint(0, 300), 4096 - 0x120 % 4096 if rng.chance(0.1) else 0])
         return w
     w['chunks'] = sorted(rng.randrange(0, nrec_hint + 1) for _ in range(rng.randint(0, 4)))
@@ -418,6 +420,10 @@ def gen_writer(rng, version, threads, nrec_hint=0, logs=True, with_tai=False):
     w['gaps'] = [(rng.randbytes(rng.randint(0, 16)) if rng.chance(0.3) else b'').hex() for _ in range(len(w['chunks']) + 1)]
     w['cpu_info'] = {'cpus': [rng.ident() for _ in range(rng.randint(0, 5))], 'n': rng.randrange(0, 1 << 20)}
     w['plist_fmt'] = rng.pick(['binary', 'binary', 'xml'])
+    if rng.chance(0.5):
+        w['hdr'] = {'tag': rng.randrange(1 << 32), 'sub_tag': rng.randrange(1 << 32), 'length': rng.randrange(1 << 40), 'numer': rng.pick([0, 1, 125]),
+                    'denom': rng.pick([0, 1, 3]), 'timestamp': rng.randrange(1 << 63), 'secs': rng.randrange(1 << 33), 'usecs': rng.randrange(1000000),
+                    'mw': rng.randrange(1 << 32), 'dst': rng.pick([0, 1]), 'flags': rng.randrange(1 << 32), 'tag2': rng.randrange(1 << 32)}
     w['pad_last'] = rng.chance(0.7)
     blocks = []
     kinds = ['processes', 'images', 'kexts', 'kexts', 'dyld', 'dyld', 'codes', 'codes', 'unknown']
@@ -536,7 +542,7 @@ def build_file(w, record_bytes):
     """writer spec + list of 64-byte records -> (bytes, layout)."""
     tm = tmap_bytes(w.get('tmap', []))
     if w['version'] == 2:
-        return writer.write_v2(tm, w.get('pad', 0), record_bytes)
+        return writer.write_v2(tm, w.get('pad', 0), record_bytes, is64=w.get('is64', 1), freq=w.get('freq', 24000000))
     cuts = sorted(min(max(c, 0), len(record_bytes)) for c in w.get('chunks', []))
     chunks = []
     prev = 0
@@ -548,7 +554,7 @@ def build_file(w, record_bytes):
     return writer.write_v3(tm, chunks, blocks, cpu_info=w.get('cpu_info'), filler1=bytes.fromhex(w.get('filler1', '')),
                            filler2=bytes.fromhex(w.get('filler2', '')),
                            gaps=[bytes.fromhex(g) for g in w.get('gaps', [])], pad_last=w.get('pad_last', True),
-                           plist_fmt=fmt)
+                           plist_fmt=fmt, hdr=w.get('hdr'))
 
 
 def dump_bytes(f):
